@@ -320,3 +320,8 @@ Fixpoint run (c : Cfg) (s : St) (ops : list Op) : St * list Ev :=
 (* ---------- predicates used by the theorems and as known-finding triggers ---------- *)
 Definition byz_frozen_m (s : St) (a : Z) : bool :=
   match susp s !! a with Some l => lvh_frozen l && (l_status l =? BYZ) | None => false end.
+(* trigger C19.guilty_without_validator_record: the YES votes of request [r] cross the share but the
+   accused has no validator record one version back (it unstaked everything, or never was a
+   validator): ExecuteAllegationTracker writes the freeze record and leaves the request open *)
+Definition guilty_without_record (c : Cfg) (q : list (Z * Z)) (req : Z) (r : Req) : bool :=
+  guilty_x c (count_choice YES (r_votes r)) req && negb (inb (r_mal r) q.*1).
